@@ -40,6 +40,12 @@ def run(ck):
     for _ in range(2 if ck.quick else 6):
         docs.append(docgen.to_mjml(g.document(with_head=True)))
     docs.append(docgen.to_mjml(docgen.with_inline_classes(g.document(with_head=True), rng)))
+    # a compilation that fails half way (mj-image without src), and a component that resolves something at render time (base-url)
+    docs.append('<mjml><mj-body><mj-section><mj-column><mj-text>before the failure</mj-text><mj-image/></mj-column></mj-section></mj-body></mjml>')
+    docs.append('<mjml><mj-body><mj-section><mj-column><mj-navbar base-url="https://example.com"><mj-navbar-link href="/pricing">P</mj-navbar-link>'
+                '<mj-navbar-link href="https://other.example/x">X</mj-navbar-link></mj-navbar><mj-carousel><mj-carousel-image src="https://x/a.png"/></mj-carousel>'
+                '<mj-accordion padding="7px"><mj-accordion-element><mj-accordion-title>T</mj-accordion-title></mj-accordion-element></mj-accordion>'
+                '<mj-social inner-padding="8px"><mj-social-element name="facebook" href="https://x">F</mj-social-element></mj-social></mj-column></mj-section></mj-body></mjml>')
     docs.append('<mjml><mj-head><mj-style inline="inline">.hl{color:red}</mj-style></mj-head><mj-body><mj-section><mj-column><mj-table><tr><td class="hl" style="padding:4px">c</td></tr></mj-table>'
                 '<mj-text><span class="hl">t</span></mj-text></mj-column></mj-section></mj-body></mjml>')
     kinds = [(p, d) for p in PATHS for d in range(len(docs))]
